@@ -27,6 +27,11 @@ type c10Plan struct {
 	Wire     string `json:"wire"` // hex of the complete server byte stream (packets)
 	DebugLog bool   `json:"debug_log"`
 	Subject  string `json:"subject"` // zoo entry / field the corruption hit (for signatures)
+	// PacketBody > 0: the stream (if it is a sequence of well-formed packets of one message) is re-cut into packets
+	// of at most that many body bytes; ReadSize > 0: every transport read returns at most that many bytes. A
+	// package that is incomplete when a packet ends is parsed again when the next packet arrives.
+	PacketBody int `json:"packet_body,omitempty"`
+	ReadSize   int `json:"read_size,omitempty"`
 }
 
 type c10 struct{}
@@ -40,6 +45,38 @@ var c10PackSizes = []string{"0", "1", "4", "7", "8", "9", "10", "16", "-1", "-5"
 	"255", "256", "511", "512", "513", "65535", "65536", "65543", "70000", "131072", "16777216", "2147483647", "2147483648",
 	"4294967295", "4294967296", "4294967304", "9223372036854775807", "9223372036854775808", "99999999999999999999", "", " ", "abc",
 	" 512", "512 ", "+512", "0x200", "5e2", "512.0", "\x00", "٥١٢"}
+
+// c10Dribbles: heads of packages whose item count is 65535 (lengths chosen so that the package is never complete).
+var c10Dribbles = func() []struct {
+	name string
+	head []byte
+	tail int
+	per  int
+} {
+	type d = struct {
+		name string
+		head []byte
+		tail int
+		per  int
+	}
+	var out []d
+	for _, h := range []struct {
+		name string
+		head []byte
+	}{
+		{"ROWFMT2", []byte{0x61, 0xff, 0xff, 0x00, 0x00, 0xff, 0xff}},
+		{"ROWFMT", []byte{0xEE, 0xff, 0xff, 0xff, 0xff}},
+		{"PARAMFMT", []byte{0xEC, 0xff, 0xff, 0xff, 0xff}},
+		{"PARAMFMT2", []byte{0x20, 0xff, 0xff, 0x00, 0x00, 0xff, 0xff}},
+		{"ORDERBY", []byte{0xA9, 0xff, 0xff}},
+		{"ORDERBY2", []byte{0x22, 0xff, 0xff, 0x00, 0x00, 0xff, 0xff}},
+	} {
+		for _, per := range []int{1, 4, 9} {
+			out = append(out, d{h.name, h.head, 120, per})
+		}
+	}
+	return out
+}()
 
 var c10Subst = []byte{0, 1, 2, 3, 4, 7, 8, 0x7F, 0x80, 0xFE, 0xFF}
 
@@ -109,14 +146,14 @@ func c10LenTypes() []peer.Entry {
 var c10CrossSeqs = [][]byte{{0xD1, 0xD1}, {0xD1, 0xD7}, {0xD7, 0xD1}, {0xD7, 0xD7}, {0xD7, 0xD7, 0xD1}, {0xD1, 0xD1, 0xD7}}
 
 func (c10) NRuns(tier string) int {
-	n := c10BuildEnum(tier).total + len(c10LenTypes())*256 + 10*2*24 + len(fmtNames)*len(c10CrossSeqs) + len(c10PackSizes)
+	n := c10BuildEnum(tier).total + len(c10LenTypes())*256 + 10*2*24 + len(fmtNames)*len(c10CrossSeqs) + len(c10PackSizes) + len(c10Dribbles)
 	if tier == "thorough" {
 		return n + 3000000
 	}
 	return n + 20000
 }
 func (c10) Rule() string {
-	return "corruption faults on server responses: (enumerated) every byte of every response of the entry set (quick: one entry per package type and data-type family; thorough: the whole 467-entry zoo) substituted by each of {0,1,2,3,4,7,8,0x7f,0x80,0xfe,0xff} and by its own value +-1..4 (a corrupted format is followed by a data package valid for the original format); every one-byte-length data type x every data length 0..255 with random data; packet headers with every length 0..9 and all message types; every format followed by 2..3 data tokens of its own and the other family; 43 announced packet sizes (negative, tiny, 8, beyond 16 and 32 bits, not numbers); after every response the client sends one more 600-byte request; (seeded) 2- and 4-byte windows overwritten with boundary integers, truncation plus garbage, known token followed by random bytes, format followed by arbitrary row bytes, purely random streams; DebugLogPackages on in a third of the runs; non-trivial = the corrupted bytes reached a package parser (not rejected at the packet layer); distinct = distinct (kind, subject, offset, value) / wire hash"
+	return "corruption faults on server responses: (enumerated) every byte of every response of the entry set (quick: one entry per package type and data-type family; thorough: the whole 467-entry zoo) substituted by each of {0,1,2,3,4,7,8,0x7f,0x80,0xfe,0xff} and by its own value +-1..4 (a corrupted format is followed by a data package valid for the original format); every one-byte-length data type x every data length 0..255 with random data; packet headers with every length 0..9 and all message types; every format followed by 2..3 data tokens of its own and the other family; 43 announced packet sizes (negative, tiny, 8, beyond 16 and 32 bits, not numbers); after every response the client sends one more 600-byte request; 18 packages announcing 65535 items that arrive 1..9 bytes per packet; a quarter of the runs re-cut into packets of 1..64 body bytes, a fifth read 1..8 bytes at a time; (seeded) 2- and 4-byte windows overwritten with boundary integers, truncation plus garbage, known token followed by random bytes, format followed by arbitrary row bytes, purely random streams; DebugLogPackages on in a third of the runs; non-trivial = the corrupted bytes reached a package parser (not rejected at the packet layer); distinct = distinct (kind, subject, offset, value) / wire hash"
 }
 func (c10) Components() map[string]string {
 	return map[string]string{"tds (packet reader, Channel, PacketQueue, every package/format/value parser, String methods via debug log), asetypes.GoValue": "real (rewritten)", "transport": "stub: simrt.Conn", "server": "stub: byzantine peer (sim/peer encoders + corruption faults)", "process limits": "worker under ulimit -v, TotalAlloc measured per run"}
@@ -145,6 +182,19 @@ func c10Wrap(body []byte) []byte {
 }
 
 func (c10) Gen(r *Rand, idx int, tier string) interface{} {
+	p := c10Gen(r, idx, tier)
+	if p.Kind != "header" && p.Kind != "count-dribble" {
+		if idx%4 == 1 {
+			p.PacketBody = []int{1, 3, 7, 16, 64}[(idx/4)%5]
+		}
+		if idx%5 == 2 {
+			p.ReadSize = []int{1, 3, 8}[(idx/5)%3]
+		}
+	}
+	return p
+}
+
+func c10Gen(r *Rand, idx int, tier string) *c10Plan {
 	p := &c10Plan{DebugLog: idx%3 == 0}
 	e := c10BuildEnum(tier)
 	i := idx
@@ -240,6 +290,21 @@ func (c10) Gen(r *Rand, idx int, tier string) interface{} {
 		p.Kind, p.Subject = "packsize", "ENVCHANGE"
 		p.Desc = fmt.Sprintf("packet size %q announced, then the client sends 600 bytes", val)
 		p.Wire = hex.EncodeToString(c10Wrap(body))
+		return p
+	}
+	i -= len(c10PackSizes)
+	if i < len(c10Dribbles) {
+		// a package that announces 65535 items and then arrives a few bytes per packet: every arriving packet makes
+		// the channel parse the package again from its start
+		d := c10Dribbles[i]
+		body := append(append([]byte{}, d.head...), r.Bytes(d.tail)...)
+		p.Kind, p.Subject = "count-dribble", d.name
+		p.Desc = fmt.Sprintf("%s announcing 65535 items, %d more bytes, %d body bytes per packet, no end of message", d.name, d.tail, d.per)
+		var w []byte
+		for _, pk := range peer.Packetise(body, peer.CutsBySize(len(body), d.per), peer.BufResponse, 0, false) {
+			w = append(w, pk...)
+		}
+		p.Wire = hex.EncodeToString(w)
 		return p
 	}
 	// seeded part
@@ -344,8 +409,33 @@ func (c10) Run(plan interface{}, schedSeed uint64, replay []simrt.Choice, lenien
 	var ms0, ms1 runtime.MemStats
 	runtime.ReadMemStats(&ms0)
 	cfg := simrt.Config{Seed: schedSeed, Strategy: "uniform", ColdQueueLocks: true, EOFReadCostMs: 200, MaxSteps: 60000, Replay: replay, Lenient: lenient, KeepLog: keepLog}
-	got := runResp(cfg, respDelivery{Packets: [][]byte{wire}, TermAt: -1},
-		respClient{QueueSize: 100, ReadTimeoutS: 1, DebugLog: p.DebugLog, DrainFor: 5 * time.Second, NoDump: true, SendAfter: 600, Render: true})
+	packets := [][]byte{wire}
+	if p.PacketBody > 0 {
+		// re-cut a stream of well-formed packets of one message
+		var asm peer.Assembler
+		pks := asm.Feed(wire)
+		total, ok := 0, len(pks) > 0 && asm.Err == ""
+		var body []byte
+		for i, pk := range pks {
+			total += peer.HeaderSize + len(pk.Body)
+			if pk.H.Type != peer.BufResponse || pk.H.Channel != 0 || (pk.H.Status&peer.BufstatEOM != 0) != (i == len(pks)-1) {
+				ok = false
+			}
+			body = append(body, pk.Body...)
+		}
+		if ok && total == len(wire) && len(body) > 0 {
+			packets = peer.Packetise(body, peer.CutsBySize(len(body), p.PacketBody), peer.BufResponse, 0, true)
+			v.Probe("re-cut-into-small-packets")
+		}
+	}
+	var readSizes []int
+	if p.ReadSize > 0 {
+		for n := 0; n < 4*len(wire)+64; n++ {
+			readSizes = append(readSizes, p.ReadSize)
+		}
+	}
+	got := runResp(cfg, respDelivery{Packets: packets, TermAt: -1},
+		respClient{QueueSize: 100, ReadTimeoutS: 1, DebugLog: p.DebugLog, DrainFor: 5 * time.Second, NoDump: true, SendAfter: 600, Render: true, ReadSizes: readSizes})
 	runtime.ReadMemStats(&ms1)
 	out := got.Out
 	StdOutcome(v, out)
@@ -375,7 +465,8 @@ func (c10) Run(plan interface{}, schedSeed uint64, replay []simrt.Choice, lenien
 		runtime.GC()
 		debug.FreeOSMemory()
 	}
-	bound := int64(8<<20) + 4096*int64(len(wire))
+	// every arriving packet lets the channel try the pending package once more: 32 KiB per attempt are proportionate
+	bound := int64(8<<20) + 4096*int64(len(wire)) + int64(32<<10)*int64(len(packets))
 	if growth > bound {
 		v.Violate("alloc", "allocation out of proportion ("+p.Kind+" "+p.Subject+")", "%s (%s): %d bytes allocated while handling %d input bytes (bound %d)", p.Kind, p.Desc, growth, len(wire), bound)
 	}
@@ -425,5 +516,5 @@ func hashString(s string) uint64 {
 
 // RequiredProbes: a batch in which one of these never fired explored nothing of that kind (exit 2, not a pass).
 func (c10) RequiredProbes() []string {
-	return []string{"kind:subst", "kind:datalen", "kind:header", "kind:fmt-cross", "kind:packsize", "kind:window", "kind:random-stream"}
+	return []string{"kind:subst", "kind:datalen", "kind:header", "kind:fmt-cross", "kind:packsize", "kind:count-dribble", "re-cut-into-small-packets", "kind:window", "kind:random-stream"}
 }
